@@ -434,7 +434,7 @@ func genC20(p *pkgInfo, l *leanFile) {
 			if !ok || fd.Body == nil {
 				return true
 			}
-			checked := map[string]bool{} // expressions that went through the rule in this function
+			checked := map[string]bool{}    // expressions that went through the rule in this function
 			inline := ruleFn == funcKey(fd) // the rule is written inline in this function
 			var walk func(stmts []ast.Stmt)
 			walk = func(stmts []ast.Stmt) {
